@@ -337,10 +337,77 @@ func runC07(cfg Config, r *Result) {
 	for _, in := range fmtInputs(cfg, cfg.N(900, 20000), false) {
 		c07Check(c, in)
 	}
+	// the two text predicates of the theorems (Format.shape_lines / ends_one_nl) against the harness's own
+	// implementation, on formatter outputs damaged in the ways the property forbids
+	c07ShapeCross(c, cfg.N(300, 5000))
 	// skeleton programs: every way blank lines, comments, statements and func/on definitions meet at top level
 	nSkel := cfg.N(500, 8000)
 	for i := 0; i < nSkel; i++ {
 		c07Check(c, fmtInput{genSkeleton(cfg, i), "skeleton"})
+	}
+}
+
+// c07ShapeCross damages formatted texts and compares the Coq predicates with shapeProblem.
+func c07ShapeCross(c *c07Ctx, n int) {
+	rng := c.cfg.Rng
+	var bases []string
+	for _, s := range append(append([]string{}, fmtCorpus...), CorpusPrograms()...) {
+		if p, err := safeParse(s); err == nil {
+			if f, err := safeFormat(p); err == nil && len(f) < 4000 {
+				bases = append(bases, f)
+			}
+		}
+		if len(bases) > 120 {
+			break
+		}
+	}
+	if len(bases) == 0 {
+		return
+	}
+	for i := 0; i < n; i++ {
+		t := bases[rng.Intn(len(bases))]
+		lines := strings.Split(t, "\n")
+		k := rng.Intn(len(lines))
+		switch rng.Intn(9) {
+		case 0:
+			lines[k] += " "
+		case 1:
+			lines[k] += "\t"
+		case 2:
+			lines[k] = " " + lines[k]
+		case 3:
+			lines[k] = "  " + lines[k]
+		case 4:
+			lines = append(lines[:k], append([]string{"", ""}, lines[k:]...)...)
+		case 5:
+			lines = append(lines[:k], append([]string{"    "}, lines[k:]...)...)
+		case 6:
+			lines = append(lines, "")
+		case 7:
+			lines[k] = "\t" + lines[k]
+		default: // undamaged
+		}
+		t = strings.Join(lines, "\n")
+		if rng.Intn(12) == 0 {
+			t = strings.TrimSuffix(t, "\n")
+		}
+		ans, err := c.model.Ask(Lst(Sym("shape"), Str(t)).String())
+		if err != nil {
+			c.r.Violate(Violation{Kind: "correspondence", Key: "model-failed", Detail: err.Error(), Input: t})
+			return
+		}
+		x, err := ParseSX(ans)
+		if err != nil || len(x.L) != 2 {
+			c.r.Violate(Violation{Kind: "correspondence", Key: "model-failed", Detail: ans, Input: t})
+			return
+		}
+		coqOK := x.L[0].S == "true" && x.L[1].S == "true"
+		goProblem := shapeProblem(t)
+		c.r.Dist("shape-cross:" + map[bool]string{true: "well-shaped", false: "damaged"}[goProblem == ""])
+		if coqOK != (goProblem == "") {
+			c.r.Violate(Violation{Kind: "correspondence", Key: "shape-predicate-differs",
+				Detail: fmt.Sprintf("Format.shape_lines/ends_one_nl = %s/%s but the harness predicate says %q", x.L[0].S, x.L[1].S, goProblem), Input: t})
+		}
 	}
 }
 
